@@ -86,6 +86,13 @@ def correspond(ctx, scale):
         if masked:
             m = torch.tensor([[j < L for j in range(nn_)] for L in (2, 4)])
             kwargs['mask'] = m
+            if ci % 8 == 7:
+                # the same padding given as lens= in an UNSIGNED narrow dtype, with a sample of length zero
+                lens_t = torch.tensor([0, 4], dtype=torch.uint8)
+                m = torch.arange(nn_)[None, :] < lens_t.long()[:, None]
+                del kwargs['mask']
+                kwargs['lens'] = lens_t
+                dist['lens_uint8_zero_length'] = dist.get('lens_uint8_zero_length', 0) + 1
         st = torch.get_rng_state()
         # process-wide torch settings around the call (vlib/callzoo.ambient: deterministic-algorithms mode, another default dtype): the reported losses
         # are a function of the arguments and the module, whatever the ambient settings are
